@@ -107,6 +107,14 @@ class CFG:
         for n in self.nodes:
             for s, lab in n.succ:
                 self.nodes[s].pred.append((n.id, lab))
+        # attributes of `self` carry the incoming object state: an implicit definition at function entry
+        pseudo = set()
+        for n in self.nodes:
+            pseudo |= {u for u in n.uses if u.startswith("self.")}
+            pseudo |= {d.name for d in n.defs if d.name.startswith("self.")}
+        have = {d.name for d in self.nodes[self.entry].defs}
+        for nm in sorted(pseudo - have):
+            self.nodes[self.entry].defs.append(Def(self.entry, nm, "attr-in"))
         self._rd = None
         self._dom = None
         self._pdom = None
